@@ -133,6 +133,12 @@ def gen_cloud(rnd, fudge):
             v = np.array([rnd.gauss(0, 1) for _ in range(3)])
             v /= np.linalg.norm(v)
             c['pos'] = list(np.array(a['pos']) + v * thr * (1 + rnd.choice([-1e-6, 1e-6, -1e-3, 1e-3])))
+    if n >= 2 and rnd.random() < 0.3:
+        # atoms on bit-identical coordinates (alternate locations kept side by side, superimposed copies, coarse coordinates):
+        # distance exactly 0 is within every threshold
+        for _ in range(rnd.randint(1, 2)):
+            a, c = rnd.sample(atoms, 2)
+            c['pos'] = list(a['pos'])
     atoms.sort(key=lambda a: a['mol'])
     return atoms
 
